@@ -22,6 +22,11 @@ def run(tier, seed):
     b = V.build('release')
     wd = V.workdir('c14')
     jobs = [{'cases': [C.strip(c) for c in sh], 'seeds': 16 if th else 8, 'hist_len': 1000, 'group': 4, 'verif_seed': seed, '_bin': b} for sh in V.shard(cs, V.NCPU * 2)]
+    # constructors that take long enough (10^5..10^7 loop steps) for concurrent constructions to overlap: kept adjacent in
+    # one job so that the concurrent-construction check builds them alternately from 8 threads
+    slow = [C.mk('hypergeometric', 'u64', list(p), ('c03',)) for p in [(10 ** 6, 20, 10 ** 5), (10 ** 6, 30, 150000), (4 * 10 ** 6, 9, 2 * 10 ** 6), (3 * 10 ** 6, 5, 10 ** 6)]]
+    jobs.append({'cases': [C.strip(c) for c in slow], 'seeds': 2, 'hist_len': 200, 'group': 4, 'verif_seed': seed, '_bin': b})
+    cs = cs + slow
     events, meta = V.run_shards(None, 'c14', jobs, wd, 'c14', wall_timeout=7200)
     ver = V.Verdict('C14')
     calls = pairs = hist = replayed = concurrent = 0
